@@ -114,7 +114,7 @@ TEXT = {
         engine="graph (E2) + choice (E1)",
         design_ref="DESIGN.md §3 C16",
         technique="explicit-state search of the real ring buffer / sink hand-over at scaled sizes (fixed point) and shipped size (bounded depth); bounded-exhaustive enumeration of driver sets through the real hal.DetectHardware",
-        text="Part 1: the real kfmt ring buffer, Printf and SetOutputSink are searched to a fixed point of (rIndex,wIndex,sink) with the ring size constant scaled to 8 and 4, and to depth 8 (thorough: 48) at the shipped size, against a drop-oldest FIFO reference with labelled bytes (loss, duplication, reordering visible). Part 2: every ordered tuple of <=3 drivers (4 in thorough, reduced alphabet) over kind x outcome x detection order x early-log size is booted through the real DetectHardware; probe order, active set, first-console/first-terminal rule, attachment, state, sink and the exactly-once in-order delivery of the early log ahead of later output are checked; with the real tty.VT the console content is compared differentially with a terminal fed the recorder's stream.",
+        text="Part 1: the real kfmt ring buffer, Printf and SetOutputSink are searched to a fixed point of (rIndex,wIndex,sink) with the ring size constant scaled to 8 and 4, and to depth 8 (thorough: 48) at the shipped size, against a drop-oldest FIFO reference with labelled bytes (loss, duplication, reordering visible). Part 2: every ordered tuple of <=3 drivers (4 in thorough, reduced alphabet) over kind x outcome x detection order x early-log size is booted through the real DetectHardware; probe order, active set, first-console/first-terminal rule, attachment, state, sink and the exactly-once in-order delivery of the early log ahead of later output are checked; with the real tty.VT the console content is compared differentially with a terminal fed the recorder's stream. A complete bring-up line may name at most one registered driver (attribution).",
         note="Drivers are mocks (plus the real tty.VT; mock terminals refuse output while unattached, as tty.VT does); bring-up log lines are matched by tokens, not exact wording; ring sizes 8/4 come from an overlay copy of ringbuf.go with only the constant changed.",
     ),
     "C17": dict(
